@@ -129,7 +129,7 @@ func TestC18Positions(t *testing.T) {
 		reps = 25
 	}
 	seen := map[string]bool{}
-	for _, kind := range []string{KMissing, KDangling, KUnread, KReadFail, KVanish, KDir, KEmpty, KSymlink} {
+	for _, kind := range []string{KMissing, KDangling, KUnread, KReadFail, KLoop, KLongName, KVanish, KDir, KEmpty, KSymlink} {
 		for n := 1; n <= 6; n++ {
 			for pos := 0; pos < n; pos++ {
 				for _, procs := range procChoices {
@@ -175,7 +175,7 @@ func TestC18Positions(t *testing.T) {
 	}
 }
 
-var c18Kinds = []string{KRegular, KRegular, KRegular, KRegular, KEmpty, KDir, KDir, KMissing, KDangling, KSymlink, KVanish, KUnread, KReadFail}
+var c18Kinds = []string{KRegular, KRegular, KRegular, KRegular, KEmpty, KDir, KDir, KMissing, KDangling, KSymlink, KVanish, KUnread, KReadFail, KLoop, KLongName}
 
 func genList(t *rapid.T) ListCase {
 	cpu := runtime.NumCPU()
@@ -299,6 +299,7 @@ func genDigest(t *rapid.T) DigestCase {
 			c.Script = append(c.Script, Edit{Op: "swap", Name: inSet("swapa"), Name2: inSet("swapb")})
 		}
 	}
+	c.FailedCallFirst = rapid.IntRange(0, 9).Draw(t, "failed_call_first") == 0
 	return c
 }
 
